@@ -257,7 +257,7 @@ fn parse_v_model_directive(
     };
 
     let mut modifiers = None;
-    let value;
+    let mut value;
 
     if let Expr::Array(ArrayLit { elems, .. }) = attr_value {
         value = match elems.first() {
@@ -313,6 +313,9 @@ fn parse_v_model_directive(
                 "The value of `v-model` must be a valid assignment target.",
             );
         });
+        // the error is reported; what is handed on must still be a tree the passes that follow
+        // can process (`f() = $event` makes the fixer panic)
+        value = Expr::Ident(quote_ident!("undefined").into());
     }
 
     Directive::VModel(VModelDirective {
